@@ -11,6 +11,7 @@ RULE = (
     "(XSFPFCC derived from XSCHORUSCC via dsigma/dxdQ2 = dsigma/dxdy/(2 M E x), i.e. 4 pi x), F3 sign from the lepton charge; "
     "all ten kinds, four projectiles, all heavynesses, PTO 0..2 with SV keys, TMC 0..3, y classes {->0+, bulk, =1}; y echoed. "
     "Distinct = (xs kind, heavyness, process, projectile, TMC, y class); non-trivial = at least two of the three SF tensors non-zero."
+    " One case in four adds the twin of a bulk point with x and y exchanged at the same Q2."
 )
 ASSUMPTIONS = ["GeV^-2 -> 1e-38 cm^2 conversion 3.893793e10 (pb: /100) as documented for the CHORUS/NuTeV/FPF normalisations"]
 RTOL = 1e-12
